@@ -141,8 +141,9 @@ type File struct {
 	GlobalHeaps                 map[uint64]*GCol
 	Unsupported                 []string // features met that this decoder does not implement (decoding continued around them)
 
-	data []byte
-	tol  map[string]bool
+	data     []byte
+	tol      map[string]bool
+	resolver *dec
 }
 
 // UndefAddr is the decoded form of the "undefined address" (all ones in OffsetSize bytes).
@@ -431,7 +432,14 @@ func (c *cur) cstr(pad int, field string) string {
 	return s
 }
 
-// Decode decodes an HDF5 file image.
+// Decode decodes an HDF5 file image: superblock, then every object reachable from the root group by
+// hard links (each object header once; further paths are only recorded in Paths), with all the
+// structures they refer to. The error is the first specification violation that is not a tolerated
+// deviation ("deviation <name>: ..." for the named ones), an "unsupported: ..." error (IsUnsupported)
+// when the only obstacle was a format feature this decoder does not implement (decoding continued
+// around it where possible, see File.Unsupported), or nil. The *File is returned in every case and
+// holds whatever was decoded before the error. Decode never panics; it bounds every allocation by the
+// input size or a fixed cap.
 func Decode(data []byte, opt Options) (f *File, err error) {
 	f = &File{
 		Objects:     map[uint64]*Object{},
